@@ -405,6 +405,96 @@ func C06(c *Ctx) {
 			r.Check("C06-4", FnKey(la)+":false⇒searched:"+l, c.Pos(la.Pos()), len(fl) > 0 && fl.Implies(c.listSearched(l)), "the look-ahead can answer `no notation below` without having searched Options."+l+"; false-condition: "+fl.Describe(c.O))
 		}
 	}
+	// every visible member is tried against :skip, whatever its type: the member callback of the look-ahead lets the search go on
+	// (answers false) only if ShouldSkip(member path) said no, or the member is one the package cannot see. (`:skip Meta.Audit`
+	// names a struct-typed member; testing only the scalar members and merely looking *into* the struct-typed ones loses it.)
+	nCb := 0
+	for _, la := range lookaheads {
+		for _, s := range c.CallsIn(la, fnIterFields, false) {
+			mc, ok := s.Args()[1].(*ssa.MakeClosure)
+			if !ok {
+				continue
+			}
+			h := mc.Fn.(*ssa.Function)
+			nCb++
+			hr := c.Reach(h)
+			notSkipped := c.M(false, func(t *core.Term) bool { return t.IsCallTo(fnShouldSkip) })
+			invisible := c.M(false, func(t *core.Term) bool {
+				return t.Kind == "call" && strings.HasSuffix(t.Name, "assignmentBuilder).isStructFieldAccessible")
+			})
+			okAll, why := true, ""
+			for _, ret := range core.Returns(h) {
+				if len(ret.Results) != 1 {
+					continue
+				}
+				type answer struct {
+					v ssa.Value
+					d core.DNF
+				}
+				answers := []answer{{ret.Results[0], c.ReachOf(ret)}}
+				// the answer is kept in a captured variable: read the value stored just before (same block, or at the end of
+				// each predecessor block; no call between)
+				if u, isLoad := ret.Results[0].(*ssa.UnOp); isLoad && u.Op == token.MUL {
+					if fv, isFV := u.X.(*ssa.FreeVar); isFV {
+						lastStore := func(instrs []ssa.Instruction) ssa.Value {
+							var stored ssa.Value
+							for _, in := range instrs {
+								if in == ssa.Instruction(u) {
+									break
+								}
+								switch x := in.(type) {
+								case *ssa.Store:
+									if x.Addr == ssa.Value(fv) {
+										stored = x.Val
+									}
+								case ssa.CallInstruction:
+									stored = nil
+								}
+							}
+							return stored
+						}
+						if sv := lastStore(u.Block().Instrs); sv != nil {
+							answers = []answer{{sv, c.ReachOf(ret)}}
+						} else {
+							var fromPreds []answer
+							for _, p := range u.Block().Preds {
+								if sv := lastStore(p.Instrs); sv != nil {
+									fromPreds = append(fromPreds, answer{sv, hr.At(p)})
+								} else {
+									fromPreds = nil
+									break
+								}
+							}
+							if len(fromPreds) > 0 {
+								answers = fromPreds
+							}
+						}
+					}
+				}
+				for _, an := range answers {
+					for _, cs := range hr.Cases(an.v) {
+						t := c.O.Of(cs.V)
+						if t.Is("const", "true") || t.IsCallTo(fnShouldSkip) {
+							continue // true ends the search; the verdict of ShouldSkip itself is false only if it said no
+						}
+						cond := an.d
+						if cs.Cond != nil {
+							cond = core.And(cs.Cond, an.d)
+						}
+						if !cond.Implies(notSkipped, invisible) {
+							okAll = false
+							why = "answer " + t.String() + " under " + c.failing(cond, notSkipped, invisible)
+						}
+					}
+				}
+			}
+			r.Check("C06-4", FnKey(h)+":every-member-tried-against-skip", c.Pos(h.Pos()), okAll,
+				"the look-ahead passes over a visible member without asking ShouldSkip about its path: a :skip that names a struct-typed member below an assignable struct is lost; "+why)
+		}
+	}
+	if len(lookaheads) >= 1 {
+		r.Floor("C06-4", "member callbacks of the look-ahead", nCb, 1)
+	}
 	if len(lookaheads) >= 1 {
 		isLA := func(t *core.Term) bool {
 			for _, la := range lookaheads {
